@@ -10,8 +10,9 @@ CONSTANTS
   TTLs = {0}
   Lowers = {0}
   Usages = {0}
+  EnvFiles = {}
 INVARIANT CInv
-PROPERTY PersistProtected NormalPassExact ThresholdPassSubset PolicyOrder
+PROPERTY TPersistProtected NormalPassExact ThresholdPassSubset PolicyOrder
 CONSTRAINT HW
 POSTCONDITION TraceAccepted
 CHECK_DEADLOCK FALSE
